@@ -45,6 +45,13 @@ func phaseCarry(cr *childResult, seed uint64, quick bool) {
 		runHdrScenario(cr, rng.Fork(), i)
 	}
 	runAsyncDump(cr, rng.Fork(), seed, nAsync)
+	nReq := 5
+	if !quick {
+		nReq = 80
+	}
+	for i := 0; i < nReq; i++ {
+		runReqHdrScenario(cr, rng.Fork(), i)
+	}
 }
 
 // ---------- hdr ----------
@@ -364,4 +371,105 @@ func coqBigNat(n int) string {
 		return fmt.Sprint(n)
 	}
 	return fmt.Sprintf("(N.to_nat %d%%N)", n)
+}
+
+// ---------- reqhdr (round 6): the HPACK ENCODING context of a connection ----------
+//
+// The origin announces a small SETTINGS_MAX_HEADER_LIST_SIZE (net/http: MaxHeaderBytes + 320).
+// Requests within the limit carry fields that repeat (X-Caller per caller, X-Const for all: the
+// encoder refers to them by dynamic-table index) next to unique ones; requests over the limit
+// (a 12 KB field plus a NEW small field) are refused by the client before anything is sent.  A
+// refused request must leave the connection's shared encoder untouched: every later request,
+// sequential or concurrent, must reach the origin with its own fields (the origin echoes them).
+
+func runReqHdrScenario(cr *childResult, rng *hk.Rand, sidx int) {
+	const maxHeaderBytes = 4096
+	peerMax := maxHeaderBytes + 320
+	ln, err := net.Listen("tcp", "127.0.0.1:0")
+	if err != nil {
+		cr.Notes = append(cr.Notes, "carry/reqhdr: "+err.Error())
+		return
+	}
+	cert, err := tls.X509KeyPair(testcert.LocalhostCert, testcert.LocalhostKey)
+	if err != nil {
+		return
+	}
+	srv := &http.Server{
+		MaxHeaderBytes: maxHeaderBytes,
+		TLSConfig:      &tls.Config{Certificates: []tls.Certificate{cert}, NextProtos: []string{"h2"}},
+		Handler: http.HandlerFunc(func(w http.ResponseWriter, r *http.Request) {
+			h := w.Header()
+			h.Set("X-Tag-Echo", r.Header.Get("X-Tag"))
+			h.Set("X-Caller-Echo", r.Header.Get("X-Caller"))
+			h.Set("X-Const-Echo", r.Header.Get("X-Const"))
+			io.WriteString(w, "answer-"+r.Header.Get("X-Tag"))
+		}),
+	}
+	go srv.ServeTLS(ln, "", "")
+	defer srv.Close()
+	addr := ln.Addr().String()
+	c := req.C().EnableInsecureSkipVerify().EnableForceHTTP2().SetTimeout(90 * time.Second)
+	defer c.GetTransport().CloseIdleConnections()
+	var mu sync.Mutex
+	var obs []string
+	var desc []interface{}
+	sawBig := false
+	one := func(caller string, i int, big bool) {
+		tag := fmt.Sprintf("rq-%d-%s-%d", sidx, caller, i)
+		rq := c.R().SetHeader("X-Tag", tag).SetHeader("X-Caller", caller).SetHeader("X-Const", "same-for-every-request")
+		sizes := []int{420, 5 + len(tag) + 32, 8 + len(caller) + 32, 7 + 22 + 32}
+		if big {
+			rq.SetHeader("X-Big", strings.Repeat("b", 12000)).SetHeader(fmt.Sprintf("X-New-%s-%d", caller, i), "fresh")
+			sizes = append(sizes, 5+12000+32, 12+5+32)
+		}
+		resp, err := rq.Get("https://" + addr + "/")
+		delivered := err == nil && resp.Response != nil
+		mu.Lock()
+		defer mu.Unlock()
+		if delivered && resp.StatusCode == 200 {
+			if e1, e2, e3 := resp.Header.Get("X-Tag-Echo"), resp.Header.Get("X-Caller-Echo"), resp.Header.Get("X-Const-Echo"); e1 != tag || e2 != caller || e3 != "same-for-every-request" || resp.String() != "answer-"+tag {
+				cr.fail(hk.Failure{Sig: "crosstalk:reqhdr", What: "the origin did not see this request's own header fields (the connection's HPACK encoder is out of step with the peer's decoder: a refused request changed it?)",
+					Input: map[string]interface{}{"peer_max_header_list_size": peerMax, "requests": desc, "tag": tag, "caller": caller},
+					Got:   map[string]string{"X-Tag": e1, "X-Caller": e2, "X-Const": e3}, Want: map[string]string{"X-Tag": tag, "X-Caller": caller}})
+			}
+		}
+		if !delivered && !big {
+			cr.fail(hk.Failure{Sig: "error:reqhdr:small", What: "a request within the peer's header-list limit failed on a connection on which an oversized request had been refused before (or concurrently)",
+				Input: map[string]interface{}{"peer_max_header_list_size": peerMax, "requests": desc, "tag": tag, "after_refused_request": sawBig}, Got: fmt.Sprint(err)})
+		}
+		if big {
+			sawBig = true
+			if delivered {
+				cr.count("carry.reqhdr.oversized_request_was_sent")
+			}
+		}
+		var ss []string
+		for _, z := range sizes {
+			ss = append(ss, coqBigNat(z))
+		}
+		obs = append(obs, fmt.Sprintf("(%s, %s)", hk.CoqList(ss), hk.CoqBool(delivered)))
+		desc = append(desc, map[string]interface{}{"tag": tag, "oversized": big, "delivered": delivered})
+		cr.count(fmt.Sprintf("carry.reqhdr.oversized=%v", big))
+	}
+	for i := 0; i < 9; i++ {
+		one(fmt.Sprintf("s%d", i%2), i, i >= 2 && rng.Chance(35))
+	}
+	var wg sync.WaitGroup
+	for g := 0; g < 5; g++ {
+		wg.Add(1)
+		lr := rng.Fork()
+		go func(g int) {
+			defer wg.Done()
+			for i := 0; i < 5; i++ {
+				one(fmt.Sprintf("g%d", g), i, lr.Chance(30))
+			}
+		}(g)
+	}
+	if !waitOrStall(&wg, 100*time.Second) {
+		stallExit(cr, hk.Failure{Sig: "stall:reqhdr", What: "callers are still blocked after 100 s", Input: map[string]interface{}{"scenario": sidx}})
+	}
+	mu.Lock()
+	coq := fmt.Sprintf("H2ReqHdrCase %s %s", coqBigNat(peerMax), hk.CoqList(obs))
+	cr.add(coq, map[string]interface{}{"kind": "h2reqhdr", "peer_max_header_list_size": peerMax, "requests": desc}, coq, sawBig)
+	mu.Unlock()
 }
